@@ -35,6 +35,20 @@ deliveries or from inside another call's result callback (also one that runs bec
 on the Deferred with the simulated clock advanced by the schedule.  AMP has no cancel message: the peer answers (or error-answers)
 such a call like any other, at once or late, while other calls of both sides are outstanding, possibly in the same delivery as
 their answers, or never (connection lost first).
+Session-dependent responders: which responder (if any) handles a command name is decided by the peer's IResponderLocator - the
+documented extension point - and may depend on the state of the session.  Two commands (Gated, Staged) are located through an
+application locator (an AMP.locateResponder override, or in half of those runs a separate locator object given to AMP(locator=...))
+that answers from what the peer's application offers for the name right now: nothing (unhandled for the time being), or the
+responder of one of three stages (separate CommandLocator objects whose answers name their stage).  In half of the runs the offer
+changes during the connection - from inside responders (login / logout / next stage), from inside result callbacks and between
+deliveries - so the same name is asked again and again on one connection under changing offers, with questions in flight, buffered
+in a paused protocol, or asked afterwards.
+Synchronous pipe: in SYNC_LINK_P of the runs the link is detsim.net.SyncLink - write() hands the bytes to the peer protocol at
+once - so a responder's answer is delivered, and the caller's result callback runs (re-entrant calls, cancels, flow control, session
+changes included), while the answering peer is still inside its own dataReceived; the same protocol is never re-entered by the pipe.
+The pipe is corked while callRemote itself runs (see ASSUMPTIONS).
+Self-resume: SELF_RESUME_P of the pauses a callback applies to its OWN protocol are followed by resumeProducing() in the same
+callback, i.e. from inside that protocol's dataReceived, with the rest of the delivery still unparsed.
 
 Oracle = wire-level reference model, independent of amp.py: the byte streams
 each peer wrote / was delivered are parsed with an own 20-line box parser.
@@ -70,6 +84,11 @@ still sit in S's buffer: no verdict on whether S has acted on them yet (if it ha
 resumeProducing() has returned (and no callback paused S again meanwhile) the full equivalence above holds again: everything
 delivered has been acted on.  If S loses the connection while paused, a call whose reply is among the buffered boxes must have
 fired exactly once, with that reply or with the loss reason (the statement does not say which).
+Session-dependent responders: the reference keeps the history of what each peer offered for each such name.  A responder of stage v
+may run for a question only if v was offered at some moment between the question being asked and the responder running (no verdict
+on when in that span the locator is consulted); a question may go without a responder only if nothing was offered at some moment of
+that span, and is then answered UNHANDLED (the caller sees amp.UnhandledCommand); the caller's answer must name the stage whose
+responder really ran.  All other clauses apply to these commands unchanged.
 Exception subclasses: an instance of a subclass is an instance of the declared class, so the reply must carry the code the command
 declares for that base (UNKNOWN where the command declares no base of it) and the caller sees the declared class.
 Given-up calls: the statement does not say what a Deferred fires with that its own caller cancelled / timed out, so for such a call
@@ -103,18 +122,37 @@ RULE = ("run = up to 60 tape-chosen operations (callRemote from either peer, fir
         "of the runs application-level pauseProducing/resumeProducing of either peer's protocol from responders, result callbacks and "
         "between deliveries; responders also raise subclasses of declared exception classes; in half of the runs callers give up on "
         "outstanding calls (cancel() between deliveries / inside result callbacks, addTimeout on the simulated clock) and the peer "
-        "answers them anyway; non-trivial = at least one call was "
+        "answers them anyway; in half of the runs two command names are located through a session-dependent IResponderLocator whose "
+        "offer (nothing / stage 0-2) changes from responders, callbacks and between deliveries; SYNC_LINK_P of the runs use a synchronous "
+        "pipe (nested deliveries); SELF_RESUME_P of the own-protocol pauses are undone in the same callback; non-trivial = at least one call was "
         "unanswered at disconnect AND at least one call was answered AND (a responder answered late or with an error)")
-SELF_RESUME_P = 0.0   # share of the in-callback pauses of the OWN protocol that are followed by resumeProducing() in the very same
+SELF_RESUME_P = 0.3   # share of the in-callback pauses of the OWN protocol that are followed by resumeProducing() in the very same
                       # callback (i.e. from inside that protocol's dataReceived); see ASSUMPTIONS
+SYNC_LINK_P = 0.15    # share of the runs whose link is a synchronous in-memory pipe (detsim.net.SyncLink): write() hands the bytes to the
+                      # peer protocol at once, so deliveries NEST (the answer is written, delivered and its callback run while the
+                      # responder's peer is still inside its own dataReceived / responder / callback)
+SYNC_UNCORKED_CALL_P = 0.0   # on such a pipe: share of the callRemote calls during which the pipe is NOT corked, i.e. the question is
+                      # delivered, answered and the answer delivered back while the caller is still inside callRemote; see ASSUMPTIONS
 ASSUMPTIONS = ["callers attach a callback that handles every result (no unhandledError path from user code)",
                "responders return well-formed responses; no TLS",
                "at most one protocol switch per run; the inner protocols write nothing; the scenario issues no callRemote on a side "
                "while amp has it locked for the switch (documented to raise ProtocolSwitched)",
-               "the application resumes a paused protocol only while the connection is up, and never from inside that same "
-               "protocol's own dataReceived (SELF_RESUME_P = 0: IntNStringReceiver.resumeProducing() re-enters dataReceived, and a "
-               "nested call re-parses the strings the outer loop has already handed out - responders run twice, answers arrive twice; "
-               "reported as an observation on protocols/basic.py, outside this property's statement)",
+               "the application resumes a paused protocol only while the connection is up; resumeProducing() from inside that same "
+               "protocol's own dataReceived (SELF_RESUME_P) is exercised since IntNStringReceiver.dataReceived tolerates being "
+               "re-entered (/repo 520a5fa; before that repair a nested call re-parsed the strings the outer loop had already handed "
+               "out - responders ran twice, answers arrived twice) and is judged like every other resume: once it has returned, "
+               "everything delivered has been acted on exactly once",
+               "the session-dependent locator is consulted by amp at some moment between the question being asked and its responder "
+               "running (no verdict on which); stages answer with well-formed responses; the locator object itself is not replaced "
+               "during a connection",
+               "synchronous pipe: the pipe never re-enters the protocol it is delivering to, and it is corked while callRemote runs "
+               "(SYNC_UNCORKED_CALL_P = 0): a transport that delivers the ANSWER from inside the write() of the question - before "
+               "callRemote has returned - is outside the statement's network (ITransport.write is documented as buffering) and amp's "
+               "design presupposes it never happens (BoxDispatcher._sendBoxCommand registers the question after sending it: KeyError "
+               "in _answerReceived, the answering side drops the connection; with that order repaired, _errorReceived's terminal "
+               "unhandledError errback still runs before callRemote's own callbacks exist); reported as an observation",
+               "no verdict on flow control applied to a companion protocol that is inside a delivery but in none of the scenario's "
+               "responders / callbacks (synchronous pipe, command nobody handles): the scenario skips it",
                "no verdict on whether a paused protocol acts on boxes it already holds, nor on reply-or-loss-reason for such boxes at "
                "disconnect",
                "exception subclasses used by responders derive from exactly one declared class (no verdict would be given for an "
@@ -217,9 +255,31 @@ class TwiceSub(Twice):            # second family: the same exception classes un
     fatalErrors = {ExtraErr: b"DECL"}
 
 
+# Commands whose responder depends on the state of the peer's SESSION: the peer's IResponderLocator.locateResponder (the documented
+# extension point) answers for these names according to what the application offers right now - nothing (the command is unhandled
+# for the time being: not logged in yet, feature switched off), or the responder of one of several stages of the conversation.
+class Gated(amp.Command):
+    arguments = [(b"n", amp.Integer())]
+    response = [(b"n", amp.Integer()), (b"via", amp.Integer())]
+    errors = {DeclaredErr: b"DECL"}
+    fatalErrors = {FatalErr: b"FATAL"}
+
+
+class Staged(amp.Command):
+    arguments = [(b"n", amp.Integer())]
+    response = [(b"n", amp.Integer()), (b"via", amp.Integer())]
+    errors = {DeclaredErr: b"DECL"}
+    fatalErrors = {FatalErr: b"FATAL"}
+
+
 CMDS = {"Echo": Echo, "Twice": Twice, "Pad": Pad, "Note": Note, "Nope": Nope,
-        "EchoPlus": EchoPlus, "EchoAlt": EchoAlt, "EchoPlusFatal": EchoPlusFatal, "TwiceSub": TwiceSub}
-SHAPE = {"EchoPlus": "Echo", "EchoAlt": "Echo", "EchoPlusFatal": "Echo", "TwiceSub": "Twice"}   # response shape of the parent
+        "EchoPlus": EchoPlus, "EchoAlt": EchoAlt, "EchoPlusFatal": EchoPlusFatal, "TwiceSub": TwiceSub,
+        "Gated": Gated, "Staged": Staged}
+SHAPE = {"EchoPlus": "Echo", "EchoAlt": "Echo", "EchoPlusFatal": "Echo", "TwiceSub": "Twice",   # response shape of the parent
+         "Gated": "Via", "Staged": "Via"}
+DYNAMIC = ("Gated", "Staged")           # session-dependent commands
+STAGES = (0, 1, 2)                      # the responder sets a peer can offer for them (None = not offered at the moment)
+OFFER_AT_START = {"Gated": None, "Staged": 0}
 
 # Reference table, written down from the declarations above and the documented inheritance rule (not read from amp's own tables):
 # command -> {exception class: wire code}, inherited declarations included.  Anything else a responder raises is undeclared.
@@ -227,6 +287,7 @@ _BASE = {DeclaredErr: b"DECL", FatalErr: b"FATAL"}
 DECLARED = {
     "Echo": dict(_BASE), "Twice": dict(_BASE), "Pad": dict(_BASE), "Note": {}, "Nope": {},
     "Switch": {DeclaredErr: b"DECL"},
+    "Gated": dict(_BASE), "Staged": dict(_BASE),
     "EchoPlus": dict(_BASE),
     "EchoAlt": dict(_BASE),
     "EchoPlusFatal": dict(_BASE),
@@ -283,8 +344,10 @@ def parse_boxes(data):
     return boxes
 
 
-def expected_response(cmd, n, who, fill):
+def expected_response(cmd, n, who, fill, via=None):
     cmd = SHAPE.get(cmd, cmd)
+    if cmd == "Via":
+        return {"n": n, "via": via}
     if cmd == "Echo":
         return {"n": n, "who": who}
     if cmd == "Twice":
@@ -311,6 +374,7 @@ class Call:
         self.results = []
         self.d = None
         self.gaveup = ""        # "cancel" / "timeout": the CALLER gave up on the call while it was outstanding
+        self.seq0 = 0           # the answering peer's session-change counter when the question was asked
         self.late_seen = False
 
 
@@ -335,8 +399,65 @@ class InnerFactory(protocol.ClientFactory):
         return Inner(self.h, self.name)
 
 
-def make_peer(h, name):
+class Stage(amp.CommandLocator):
+    """One of the responder sets peer `name` can offer for the session-dependent commands (a plain CommandLocator with
+    Command.responder methods, as documented)."""
+
+    def __init__(self, h, name, v):
+        self.h, self.name, self.v = h, name, v
+
+    @Gated.responder
+    def gated(self, n):
+        return self.h.respond(self.name, "Gated", n, None, via=self.v)
+
+    @Staged.responder
+    def staged(self, n):
+        return self.h.respond(self.name, "Staged", n, None, via=self.v)
+
+
+class AmpSyncLink(net.SyncLink):
+    """The synchronous pipe, with the scheduler's 'deliver' event (bytes that queued up while the receiver was paused or busy) going
+    through the same FIFO-keeping hand-over as the writes."""
+
+    def do(self, kind, name, amount=None):
+        if kind == "deliver":
+            self.pump(name)
+        else:
+            net.SyncLink.do(self, kind, name, amount)
+
+    def run(self, max_steps=100000, amounts=None):
+        """Hand over what is in flight for as long as that makes progress (a paused or busy receiver keeps its bytes in flight)."""
+        n = 0
+        while n < max_steps and not self.frozen and not self.held:
+            before = (len(self.flight["A"]), len(self.flight["B"]))
+            if before == (0, 0):
+                break
+            self.pump("A")
+            self.pump("B")
+            if (len(self.flight["A"]), len(self.flight["B"])) == before:
+                break
+            n += 1
+        return n
+
+
+class SessionLocator:
+    """An application-provided IResponderLocator handed to AMP(locator=...): session-dependent names are answered from the state of
+    the session, everything else by the peer's own Command.responder table."""
+
+    def __init__(self, h, name):
+        self.h, self.name, self.peer = h, name, None
+
+    def locateResponder(self, cmdname):
+        return self.h.locate(self.name, cmdname, lambda: amp.AMP.locateResponder(self.peer, cmdname))
+
+
+def make_peer(h, name, style=""):
     class Peer(amp.AMP):
+        def locateResponder(self, cmdname):
+            # the documented extension point: which responder (if any) handles a name is the application's decision, taken per
+            # question from the state of the session
+            return h.locate(name, cmdname, lambda: amp.AMP.locateResponder(self, cmdname))
+
         def connectionLost(self, reason):
             h.lost[name] = reason
             h.sim.event("lost", name, reason.type.__name__)
@@ -390,6 +511,10 @@ def make_peer(h, name):
         def switch(self, n):
             return h.respond_switch(name, n)
 
+    if style == "object":
+        loc = SessionLocator(h, name)
+        loc.peer = Peer(locator=loc)
+        return loc.peer
     return Peer()
 
 
@@ -416,6 +541,47 @@ class Harness:
         self.indeliv = {"A": 0, "B": 0}
         self.cur = {"A": [], "B": []}           # (kind, n) of the box whose responder / result callback is running, innermost last
         self.peers = self.link = self.trans = None
+        # session-dependent responder location: what each peer's application offers for the DYNAMIC command names right now, and
+        # the history of it ((seq, state) with a global change counter) for the oracle
+        self.session_p = 0.0
+        self.seq = 0
+        self.offer = {s: dict(OFFER_AT_START) for s in "AB"}
+        self.offer_hist = {s: {c: [(0, OFFER_AT_START[c])] for c in DYNAMIC} for s in "AB"}
+        self.stages = {s: [Stage(self, s, v) for v in STAGES] for s in "AB"}
+        self.via = {}           # (side, n) -> stage whose responder ran for question n
+        self.unhandled_seen = set()
+        self.last_state = {}    # (side, cmd) -> state under which the previous question with that name was handled
+
+    # -- session-dependent responder location
+    def locate(self, side, wirename, static):
+        key = wirename.decode("ascii", "replace")
+        if key not in DYNAMIC:
+            return static()
+        st = self.offer[side][key]
+        prev = self.last_state.get((side, key), st)
+        self.last_state[(side, key)] = st
+        if prev != st:
+            self.sim.probe("session_dependent_name_located_again_after_offer_changed")
+        if st is None:
+            self.sim.probe("session_dependent_name_not_offered")
+            return None
+        return self.stages[side][st].locateResponder(wirename)
+
+    def reoffer(self, side, where):
+        """The application of `side` changes what it offers for one of the session-dependent command names."""
+        sim = self.sim
+        cmd = sim.draw_choice(DYNAMIC, "reoffer_cmd")
+        new = sim.draw_choice([st for st in STAGES + (None,) if st != self.offer[side][cmd]], "reoffer_state")
+        self.seq += 1
+        self.offer[side][cmd] = new
+        self.offer_hist[side][cmd].append((self.seq, new))
+        sim.event("reoffer", side, cmd, "none" if new is None else new, where)
+        sim.probe("session_changed_offer_" + where)
+
+    def offered(self, side, cmd, since):
+        """Everything `side` has offered for `cmd` at some moment from change counter `since` until now."""
+        hist = self.offer_hist[side][cmd]
+        return {st for i, (_q, st) in enumerate(hist) if i + 1 == len(hist) or hist[i + 1][0] > since}
 
     # -- application-level pause / resume
     def _boxes(self, side):
@@ -460,6 +626,8 @@ class Harness:
         sim.probe("app_resume_" + where)
         if waiting > 0:
             sim.probe("app_resume_with_received_boxes_waiting")
+            if where == "inside_own_delivery":
+                sim.probe("resumed_inside_own_delivery_with_received_boxes_waiting")    # the nested drain hands out the rest
         with sim.guard("protocol-raised", "resumeProducing"):
             self.peers[t].resumeProducing()
 
@@ -474,6 +642,11 @@ class Harness:
             return
         if t != side:
             where = "companion"
+            if self.indeliv[t] and not self.cur[t]:
+                # (synchronous pipe only) the companion is inside a delivery but in none of the scenario's responders / callbacks -
+                # amp itself answered a command nobody handles - so the scenario cannot tell which box it is working on: leave it alone
+                sim.probe("companion_flow_control_skipped_inside_unhandled_command")
+                return
         if not self.paused[t]:
             self.pause(t, where)
             if SELF_RESUME_P and self.indeliv[t] and sim.draw_bool(SELF_RESUME_P, "self_resume"):
@@ -484,7 +657,7 @@ class Harness:
     # -- responder bodies (tape-driven)
     def outcome_value(self, side, cmd, n, fill, kind):
         if kind == "ok":
-            return expected_response(cmd, n, side.encode(), fill) if cmd != "Note" else {}
+            return expected_response(cmd, n, side.encode(), fill, self.via.get((side, n))) if cmd != "Note" else {}
         if kind in ("extra", "alt"):
             self.sim.probe("raised_family_error_declared_by_this_command" if RAISES[kind] in DECLARED[cmd]
                            else "raised_family_error_declared_only_by_related_command")
@@ -493,14 +666,29 @@ class Harness:
                            else "responder_raised_subclass_of_error_this_command_does_not_declare")
         return Failure(RAISES[kind]("%s n=%d" % (kind, n)))
 
-    def respond(self, side, cmd, n, fill):
+    def respond(self, side, cmd, n, fill, via=None):
         sim = self.sim
         self.invoked[(side, n)] = self.invoked.get((side, n), 0) + 1
+        if via is not None:
+            # a responder of stage `via` runs for question n: the application must have offered that stage for the name at some
+            # moment since the question was asked (no verdict on WHEN in that span the implementation consults the locator)
+            q = self.byn.get(n)
+            span = self.offered(side, cmd, q.seq0) if q is not None else set(STAGES)
+            sim.check("answered-by-offered-responder", via in span, cmd,
+                      lambda: "side %s question n=%d (%s) handled by the responder of stage %r, but since the question was asked "
+                              "the session offered only %r for that name" % (side, n, cmd, via, sorted(span, key=repr)))
+            self.via[(side, n)] = via
+            if len(span) > 1:
+                sim.probe("session_changed_while_question_in_flight")
+            elif len(self.offer_hist[side][cmd]) > 1:
+                sim.probe("question_asked_after_session_changed_the_offer")
         self.cur[side].append(("cmd", n))
         try:
             self.app_flow(side, "responder")
         finally:
             self.cur[side].pop()
+        if self.session_p and sim.draw_bool(self.session_p, "reoffer_in_responder"):
+            self.reoffer(side, "in_responder")          # (login / logout / next stage: responders are what moves a session on)
         if cmd == "Note":
             kind = sim.draw_weighted([("ok", 8), ("undeclared", 1)], "note_resp")
             sim.event("respond", side, cmd, n, kind)
@@ -570,18 +758,37 @@ def run(sim):
     sw_at = sim.draw_int(1, max(1, (2 * nops) // 3), "switch_at") if sw_side else -1
     pause_p = sim.draw_choice([0.0, 0.0, 0.12, 0.35], "app_pause")
     giveup = sim.draw_choice([0.0, 0.0, 0.1, 0.3], "giveup")
+    session_p = sim.draw_choice([0.0, 0.0, 0.1, 0.3], "session")
+    loc_style = sim.draw_choice(["", "object"], "locator_style") if session_p else ""
     sim.config = {"nops": nops, "fault_rate": fault_rate, "reentrancy": reent, "switch": sw_side, "switch_at": sw_at,
-                  "app_pause": pause_p, "giveup": giveup}
+                  "app_pause": pause_p, "giveup": giveup, "session": session_p, "locator": loc_style}
     h = Harness(sim)
     h.pause_p = pause_p
-    peers = {"A": make_peer(h, "A"), "B": make_peer(h, "B")}
-    link = net.Link(sim, peers["A"], peers["B"])
+    h.session_p = session_p
+    if session_p:
+        for s in "AB":
+            for cmd in DYNAMIC:
+                st = sim.draw_choice((OFFER_AT_START[cmd],) + tuple(x for x in STAGES + (None,) if x != OFFER_AT_START[cmd]), "offer0")
+                h.offer[s][cmd] = st
+                h.offer_hist[s][cmd] = [(0, st)]
+    peers = {"A": make_peer(h, "A", loc_style), "B": make_peer(h, "B", loc_style)}
+    sync = bool(SYNC_LINK_P) and sim.draw_bool(SYNC_LINK_P, "sync_link")
+    sim.config["sync_link"] = sync
+    if sync:
+        # the same protocol is never re-entered by the pipe (a piece may hold several boxes): bytes for a protocol that is inside
+        # dataReceived wait until that call has returned
+        link = AmpSyncLink(sim, peers["A"], peers["B"], pieces=sim.draw_choice(["whole", "mixed"], "pieces"), reenter=False)
+        sim.probe("synchronous_link_run")
+    else:
+        link = net.Link(sim, peers["A"], peers["B"])
     trans = {"A": link.a, "B": link.b}
     h.peers, h.link, h.trans = peers, link, trans
     link.connect()
     depth = [0]
 
     def on_result(res, call):
+        if call.gaveup:
+            return on_result_1(res, call)       # produced by the caller's own cancel / timeout, not by a box being worked through
         h.cur[call.side].append(("res", call.n))
         try:
             return on_result_1(res, call)
@@ -615,6 +822,8 @@ def run(sim):
                 do_cancel("in_callback")
             finally:
                 depth[0] -= 1
+        if session_p and h.lost[call.side] is None and sim.draw_bool(session_p / 2, "reoffer_in_callback"):
+            h.reoffer(call.side, "in_callback")     # what a peer learns from an answer may move its own session on
         if h.lost[call.side] is None and not call.gaveup:
             # (a result produced by the loss itself, or by the caller's own cancel / timeout, is no occasion for flow control)
             h.app_flow(call.side, "callback")
@@ -649,6 +858,27 @@ def run(sim):
             return Failure(defer.TimeoutError("n=%d timed out" % c.n))
         return res
 
+    class corked:
+        """On the synchronous pipe: what callRemote writes is handed over when callRemote has returned (the pipe is corked meanwhile),
+        except in SYNC_UNCORKED_CALL_P of the calls."""
+
+        def __enter__(self):
+            self.mine = sync and not link.held and not (SYNC_UNCORKED_CALL_P and sim.draw_bool(SYNC_UNCORKED_CALL_P, "uncorked_call"))
+            if sync and not self.mine and not link.held:
+                sim.fault("question_handed_over_inside_callRemote")
+            if self.mine:
+                link.held = True
+
+        def __exit__(self, *exc):
+            if self.mine:
+                link.held = False
+            return False
+
+    def uncork():
+        if sync and not link.held and (link.flight["A"] or link.flight["B"]):
+            with sim.guard("protocol-raised", "net"):
+                link.release()
+
     def can_call(side):
         return not (h.nocall[side] and h.lost[side] is None)
 
@@ -657,7 +887,8 @@ def run(sim):
             sim.probe("call_blocked_by_switch")     # only reachable re-entrantly from a result callback
             return
         cmd = sim.draw_weighted([("Echo", 4), ("Twice", 3), ("Pad", 2), ("Note", 2), ("Nope", 1),
-                                 ("EchoPlus", 2), ("EchoAlt", 2), ("EchoPlusFatal", 1), ("TwiceSub", 2)], "cmd")
+                                 ("EchoPlus", 2), ("EchoAlt", 2), ("EchoPlusFatal", 1), ("TwiceSub", 2),
+                                 ("Staged", 4 if session_p else 1), ("Gated", 4 if session_p else 1)], "cmd")
         n = h.next_n
         h.next_n += 1
         fill = None
@@ -667,10 +898,12 @@ def run(sim):
             kw["fill"] = fill
         after_loss = h.lost[side] is not None
         c = Call(n, cmd, side, after_loss, fill)
+        c.seq0 = h.seq
         h.calls[side].append(c)
         h.byn[n] = c
         sim.event("call", side, cmd, n, "after-loss" if after_loss else "")
-        with sim.guard("callRemote-raised", cmd):
+        d = missing = object()
+        with sim.guard("callRemote-raised", cmd), corked():
             try:
                 d = peers[side].callRemote(CMDS[cmd], **kw)
             except amp.ProtocolSwitched:
@@ -679,8 +912,11 @@ def run(sim):
                     raise
                 sim.probe("call_after_loss_raised_switched")
                 return
+        if d is missing:
+            return                      # callRemote raised (reported by the guard)
         if cmd == "Note":
             sim.check("no-answer-returns-none", d is None, "Note", "callRemote returned a %s" % type(d).__name__)
+            uncork()
             return
         sim.check("returns-deferred", isinstance(d, defer.Deferred), cmd, "callRemote returned a %s" % type(d).__name__)
         c.d = d
@@ -693,6 +929,7 @@ def run(sim):
             sim.probe("call_after_loss")
             sim.check("after-loss-fails-immediately", len(c.results) == 1 and isinstance(c.results[0], Failure), cmd,
                       "call issued after connectionLost: results=%s" % show(c.results))
+        uncork()
 
     def do_switch(side):
         n = h.next_n
@@ -704,11 +941,12 @@ def run(sim):
         h.nocall[side] = True       # amp locks the caller until the switch is refused
         sim.event("call", side, "Switch", n, "")
         sim.probe("switch_issued")
-        with sim.guard("callRemote-raised", "Switch"):
+        with sim.guard("callRemote-raised", "Switch"), corked():
             d = peers[side].callRemote(Switch, InnerFactory(h, side), n=n)
         sim.check("returns-deferred", isinstance(d, defer.Deferred), "Switch", "callRemote returned a %s" % type(d).__name__)
         c.d = d
         d.addBoth(on_result, c)
+        uncork()
 
     def amp_part(s, boxes, tags):
         """The boxes delivered to s up to and including the one that completed s's protocol switch."""
@@ -746,6 +984,16 @@ def run(sim):
                 if q.cmd == "Nope":
                     sim.check("reply-matches-responder", b.get(b"_error_code") == b"UNHANDLED", "unhandled", "box %r" % (b,))
                     continue
+                if q.cmd in DYNAMIC and dec is None:
+                    # no responder ran: right only if the session offered nothing for the name at some moment since the question
+                    # was asked, and then the reply is "unhandled"
+                    sim.check("reply-matches-responder", b.get(b"_error_code") == b"UNHANDLED" and None in h.offered(s, q.cmd, q.seq0),
+                              "unhandled-session", lambda: "side %s n=%d (%s): no responder ran, box %r, offered since the question "
+                              "was asked: %r" % (s, n, q.cmd, b, sorted(h.offered(s, q.cmd, q.seq0), key=repr)))
+                    if b.get(b"_error_code") == b"UNHANDLED" and n not in h.unhandled_seen:
+                        h.unhandled_seen.add(n)
+                        sim.probe("session_dependent_command_answered_unhandled")
+                    continue
                 if b"_answer" in b:
                     good = dec == "ok"
                 else:
@@ -761,7 +1009,8 @@ def run(sim):
             must = [int(b[b"n"]) for b in delivered[s][:lim] if b"_command" in b and b[b"_command"] != b"Nope"]
             for n in asked:
                 ran = h.invoked.get((s, n), 0)
-                sim.check("responder-ran-once", ran == 1 or (ran == 0 and n not in must), "responder",
+                notoffered = h.byn[n].cmd in DYNAMIC and None in h.offered(s, h.byn[n].cmd, h.byn[n].seq0)
+                sim.check("responder-ran-once", ran == 1 or (ran == 0 and (n not in must or notoffered)), "responder",
                           "side %s command n=%d delivered, responder ran %d times" % (s, n, ran))
             sim.check("no-spurious-responder", set(k[1] for k in h.invoked if k[0] == s) <= set(asked), "responder",
                       lambda: "side %s responders ran for %r, commands delivered %r" % (s, sorted(k[1] for k in h.invoked if k[0] == s), asked))
@@ -807,7 +1056,7 @@ def run(sim):
                     b = answered[c.n]
                     sim.check("answered-call-fired", fired, c.cmd, lambda: "n=%d reply box %r delivered but Deferred pending" % (c.n, b))
                     if b"_answer" in b:
-                        exp = expected_response(c.cmd, c.n, o.encode(), c.fill)
+                        exp = expected_response(c.cmd, c.n, o.encode(), c.fill, h.via.get((o, c.n)))
                         sim.check("own-answer", r == exp, c.cmd, lambda: "n=%d got %s expected %r (box %r)" % (c.n, show(r), exp, b))
                     else:
                         code = b.get(b"_error_code")
@@ -816,6 +1065,8 @@ def run(sim):
                             continue
                         if code == b"UNKNOWN":
                             ok = r.check(amp.UnknownRemoteError) is not None
+                        elif code == b"UNHANDLED" and c.cmd in DYNAMIC:
+                            ok = r.check(amp.UnhandledCommand) is not None
                         else:
                             # the exception class the CALLED command declares under this code
                             classes = error_classes(c.cmd, code)
@@ -843,6 +1094,7 @@ def run(sim):
                ("late", 10 if h.late else 0),
                ("apppause", 2 if pause_p and any(h.lost[s] is None and not h.paused[s] for s in "AB") else 0),
                ("appresume", 12 if any(h.lost[s] is None and h.paused[s] for s in "AB") else 0),
+               ("reoffer", 4 if session_p and live else 0),
                ("cancel", (2 if giveup < 0.2 else 5) if giveup and outstanding() else 0),
                ("tick", 5 if giveup and sim.clock.pending() else 0),
                ("cutdrop", fault_rate if live else 0),
@@ -876,6 +1128,8 @@ def run(sim):
             h.pause(sim.draw_choice([s for s in "AB" if h.lost[s] is None and not h.paused[s]], "pause_side"), "between_deliveries")
         elif op == "appresume":
             h.resume(sim.draw_choice([s for s in "AB" if h.lost[s] is None and h.paused[s]], "resume_side"), "later")
+        elif op == "reoffer":
+            h.reoffer(sim.draw_choice(["A", "B"], "reoffer_side"), "between_deliveries")
         elif op == "cancel":
             do_cancel("between_deliveries")
         elif op == "tick":
@@ -997,6 +1251,14 @@ MUTANTS = [
     "seeded/C31-r5a (_sendBoxCommand: canceller that forgets the tag; the late answer then raises KeyError) -> missed while no caller "
     "ever gave up on a call; now caught (protocol-raised:net:KeyError, protocol-raised:resumeProducing:KeyError, and "
     "protocol-raised:net:AlreadyCalledError when a result callback running inside failAllOutgoing cancels another outstanding call)",
+    "seeded/C31-r6b (BoxDispatcher.dispatchCommand keeps the responder it located for a command name and reuses it for later boxes) "
+    "-> missed while every name was handled by the static Command.responder table; now caught (answered-by-offered-responder:Gated/"
+    "Staged) with session-dependent locators whose offer changes during the connection",
+    "amp.py dispatchCommand: a name once found unhandled is answered UNHANDLED for the rest of the connection -> caught "
+    "(reply-matches-responder:unhandled-session)",
+    "amp.py _sendBoxCommand on the synchronous pipe with SYNC_UNCORKED_CALL_P = 0.3 (unchanged tree!) -> answered-call-fired (answer "
+    "delivered inside callRemote, KeyError in _answerReceived swallowed by the answering side's unhandledError); knob kept at 0, see "
+    "ASSUMPTIONS",
     "re-run with the Switch workload: failAllOutgoing errback skipped, _nextTag % 4, fresh loss reason, dispatchCommand twice, "
     "_answerReceived without pop -> all still caught with the clauses listed above",
 ]
